@@ -356,7 +356,7 @@ class DocRun:
         self.store = f.token_store
         self.models = [m for m in walk(f)[1:] if hasattr(type(m), 'spacing_before')]
         seen = {id(m) for m in self.models}
-        # ownerless tokens too (Whitespace, Newline, unclaimed comments): they are models with accessors
+        # ownerless tokens with accessors too (unclaimed comments; Whitespace/Newline themselves have none)
         self.models += [t for t in self.store if id(t) not in seen and hasattr(type(t), 'spacing_before')]
         self.stats['models'] = len(self.models)
         toks = dump(self.store)
@@ -491,8 +491,8 @@ def run_all(ctx: common.Ctx):
         layouts.append(run.layout_case)
         lay_meta.append(text)
     # a model without a store (a free token): getters give nothing, setters refuse
-    _, _, _, Newline, Whitespace, _ = impl()
-    free = Whitespace.from_default()
+    _, models, *_ = impl()
+    free = models.Account.from_value('Assets:Free')
     ok = free.raw_spacing_before == () and free.raw_spacing_after == () and free.spacing_before == '' \
         and free.spacing_after == ''
     for attr, val in (('spacing_before', ' '), ('spacing_after', '\n'), ('raw_spacing_before', ()),
